@@ -3,6 +3,8 @@ import Chain33Model.Proofs.C15Ops
 C15 — invariants of `step`: a generic lifting lemma from the basic operations, then
 `WF`, `MainOK` (main ledger within `[0, MaxTokenBalance]`), error-means-unchanged.
 -/
+set_option linter.unusedSectionVars false
+set_option linter.unusedSimpArgs false
 namespace C15
 section
 variable {σ κ : Type} [DecidableEq σ] [DecidableEq κ] (c : Cfg σ κ)
